@@ -111,6 +111,12 @@ func C13() int {
 	for _, x := range []string{"items", "sku", "10", "0", "1", "2", "3", "007"} {
 		add(x)
 	}
+	// a '$'-leading component in any position ("db.$cmd", "$cmd.aggregate", "items.$id"): the pseudonym depends on the
+	// component only, and a leading '$' does not change it - so it is P(component without its '$') wherever it stands
+	for _, x := range []string{"cmd", "aggregate", "shopdb", "id", "owner", "b"} {
+		add(x)
+	}
+	dotted = append(dotted, []string{"shopdb", "$cmd"}, []string{"$cmd", "aggregate"}, []string{"shopdb", "$cmd", "aggregate"}, []string{"owner", "$id"}, []string{"a", "$b", "c"}, []string{"$a", "$b"})
 	dotted = append(dotted, []string{"items", "1", "sku"}, []string{"items", "2", "sku"}, []string{"a", "0"}, []string{"a", "10", "b", "3"}, []string{"0", "1"}, []string{"items", "007"})
 	var dollar []string
 	for i := 0; i < 5000; i++ {
@@ -320,7 +326,7 @@ func C13() int {
 		for di, parts := range dotted {
 			ps := make([]string, len(parts))
 			for k, p := range parts {
-				ps[k] = get(idxOf[p])
+				ps[k] = get(idxOf[strings.TrimLeft(p, "$")])
 			}
 			exp := strings.Join(ps, ".")
 			if got := get(nC + di); got != exp {
